@@ -46,7 +46,7 @@ class OperationDurationParameters:
     @property
     def duration_mapper(self) -> Dict[str, float]:
         return {
-            'MZ': self.duration_mz,
+            'M': self.duration_mz,
             'CZ': self.duration_cz,
             'H': self.duration_h,
             'X': self.duration_x,
